@@ -327,6 +327,7 @@ func cmdCheck(args []string) int {
 	var obligations, discharged int
 	var failing []*query
 	var engineErrs []string
+	var coverFails []*query
 	solverTime := map[string]float64{}
 	solverCount := map[string]int{}
 	kinds := map[string]int{}
@@ -342,7 +343,9 @@ func cmdCheck(args []string) int {
 			case "sat", "unknown", "timeout":
 				coversOK++
 			case "unsat":
-				engineErrs = append(engineErrs, "vacuity: cover "+qq.name+" "+qq.cv.Where+" is unsatisfiable (contradictory assumptions, or a return the contract should declare `unreachable return K`)")
+				// a point the contracts say is reachable (a return not declared unreachable, a loop body, the
+				// precondition itself) no longer is: a named obligation like any other
+				coverFails = append(coverFails, qq)
 			default:
 				engineErrs = append(engineErrs, "cover "+qq.name+": solver "+qq.result.status+": "+firstLine(qq.result.output))
 			}
@@ -407,6 +410,18 @@ func cmdCheck(args []string) int {
 			outLines = append(outLines, fmt.Sprintf("VIOLATION property=%s replay=%s no-failing-input-found", *prop, path))
 		}
 		fmt.Fprintf(os.Stderr, "failed obligation %s (%s by %s): %s @ %s\n", qq.name, qq.result.status, qq.result.solver, qq.ob.Src, qq.ob.Pos)
+	}
+	for _, qq := range coverFails {
+		violations++
+		os.MkdirAll(replayDir, 0o755)
+		path := filepath.Join(replayDir, safeFile(qq.name)+".json")
+		rec := map[string]interface{}{"property": *prop, "obligation": qq.name, "kind": "reachable", "at": qq.cv.Where,
+			"source_clause": "this program point is reachable under the contracts (not vacuous); a return the contracts rule out must be declared `unreachable return K`",
+			"solver": qq.result.solver, "solver_status": qq.result.status, "solver_output": qq.result.output}
+		b, _ := json.MarshalIndent(rec, "", " ")
+		os.WriteFile(path, b, 0o644)
+		outLines = append(outLines, fmt.Sprintf("VIOLATION property=%s replay=%s no-failing-input-found", *prop, path))
+		fmt.Fprintf(os.Stderr, "failed obligation %s (unreachable under the contracts) @ %s\n", qq.name, qq.cv.Where)
 	}
 	// constructs outside the subset: the obligations of that function are undischarged
 	for i, se := range subsetErrs {
